@@ -365,13 +365,165 @@ var scaleCases = []*ScaleCase{
 	{"x.f().", "", "g()", ""}, {"1 ? 2 : ", "", "3", ""}, {"true ? ", " : 0", "1", ""}, {"- -", "", "1", ""}, {"not ", "", "true", ""},
 }
 
+// ---- scaling of evaluation (and of the whole compile pipeline incl. type checker and code
+// generation) against nesting depth, per back end, over closed programs that are accepted
+
+type EvalScaleCase struct {
+	Open      string `json:"open"`
+	Close     string `json:"close"`
+	Atom      string `json:"atom"`
+	AtomOpen  string `json:"atom_open,omitempty"`  // atom = AtomOpen^d + Atom + AtomClose^d
+	AtomClose string `json:"atom_close,omitempty"` //
+}
+
+func (c *EvalScaleCase) src(d int) string {
+	return strings.Repeat(c.Open, d) + strings.Repeat(c.AtomOpen, d) + c.Atom + strings.Repeat(c.AtomClose, d) + strings.Repeat(c.Close, d)
+}
+
+type scalePt struct {
+	d int
+	t time.Duration
+}
+
+// growsExponentially: from depth 12 on more than 2.5x per two levels over four consecutive
+// steps, or from depth 30 on more than 1.7x per two levels over five consecutive steps
+// ((32/30)^p < 1.7 for every degree p <= 8), each step above timer noise.
+func growsExponentially(pts []scalePt) bool {
+	s1, s2 := 0, 0
+	for i := 1; i < len(pts); i++ {
+		a, b := pts[i-1], pts[i]
+		if a.d >= 12 && a.t > 200*time.Microsecond && float64(b.t) > 2.5*float64(a.t) {
+			s1++
+		} else {
+			s1 = 0
+		}
+		if a.d >= 30 && a.t > 200*time.Microsecond && float64(b.t) > 1.7*float64(a.t) {
+			s2++
+		} else {
+			s2 = 0
+		}
+		if s1 >= 4 || s2 >= 5 {
+			return true
+		}
+	}
+	return false
+}
+
+func ptsText(pts []scalePt) string {
+	var b strings.Builder
+	for _, p := range pts {
+		fmt.Fprintf(&b, "%d:%s ", p.d, p.t.Round(time.Microsecond))
+	}
+	return b.String()
+}
+
+func checkEvalScale(c *EvalScaleCase) *Outcome {
+	accepted := 0
+	for _, be := range run.AllBackends {
+		var cpts, epts []scalePt
+		for d := 2; d <= 60; d += 2 {
+			src := c.src(d)
+			if len(src) > 4096 {
+				break
+			}
+			bestC, bestE := time.Duration(1<<62), time.Duration(1<<62)
+			compiled := false
+			for rep := 0; rep < 3; rep++ {
+				en := run.NewEngine(be, run.StdHarness)
+				var call yae.Callable
+				var cerr error
+				t0 := time.Now()
+				p := run.Guard(func() { call, cerr = en.E.Compile(src, nil) })
+				dc := time.Since(t0)
+				if p != nil {
+					return bad("%s: Compile of %q panics: %s", be, src, p.Text)
+				}
+				if dc < bestC {
+					bestC = dc
+				}
+				if cerr != nil {
+					break
+				}
+				compiled = true
+				t1 := time.Now()
+				p = run.Guard(func() { _, _ = call(nil) })
+				de := time.Since(t1)
+				if p != nil {
+					return bad("%s: evaluation of %q panics: %s", be, src, p.Text)
+				}
+				if de < bestE {
+					bestE = de
+				}
+				if dc+de > 2*time.Second {
+					break
+				}
+			}
+			cpts = append(cpts, scalePt{d, bestC})
+			if compiled {
+				accepted++
+				epts = append(epts, scalePt{d, bestE})
+			}
+			if bestC > 8*time.Second || (compiled && bestE > 8*time.Second) {
+				break
+			}
+		}
+		if growsExponentially(cpts) {
+			return bad("%s: compile time grows exponentially with the repetition count of %q: depth:time %s", be, c.src(1), ptsText(cpts))
+		}
+		if growsExponentially(epts) {
+			return bad("%s: evaluation time grows exponentially with the repetition count of %q: depth:time %s", be, c.src(1), ptsText(epts))
+		}
+	}
+	if accepted == 0 {
+		return ok(false, "eval-scaling:not-accepted", "eval-scaling-not-accepted:"+c.src(1))
+	}
+	return ok(true, "eval-scaling:accepted")
+}
+
+var c12evalscale = Register(&Prop[EvalScaleCase]{ID: "C12", Name: "eval-scaling", Check: checkEvalScale})
+
+var evalScaleCases = []*EvalScaleCase{
+	// conditionals and short-circuit operators, selected / unselected / condition position
+	{Open: "if(true, 1, ", Close: ")", Atom: "1"}, {Open: "if(false, 1, ", Close: ")", Atom: "1"}, {Open: "if(true, ", Close: ", 0)", Atom: "1"},
+	{Open: "if(", Close: ", true, false)", Atom: "true"}, {Open: "if(", Close: ", false, true)", Atom: "false"},
+	{Open: "(true && ", Close: ")", Atom: "true"}, {Open: "(false || ", Close: ")", Atom: "true"}, {Open: "(", Close: " && true)", Atom: "true"}, {Open: "(", Close: " || false)", Atom: "false"},
+	{Close: " && true", Atom: "true"}, {Close: " || false", Atom: "false"}, {Open: "true && ", Atom: "true"}, {Open: "false || ", Atom: "false"},
+	{Open: "false ? 1 : ", Atom: "3"}, {Open: "true ? ", Close: " : 0", Atom: "1"}, {Open: "(true ? true : false) ? ", Close: " : 0", Atom: "1"},
+	{Open: "!", Atom: "true"}, {Open: "!(", Close: " && true)", Atom: "true"},
+	// user-registered lazy functions
+	{Open: "lz_if(true, ", Close: ", 0)", Atom: "1"}, {Open: "lz_if(false, 0, ", Close: ")", Atom: "1"}, {Open: "lz_if(", Close: ", true, false)", Atom: "true"}, {Open: "lz_and(true, ", Close: ")", Atom: "true"},
+	{Open: "if(lz_and(true, ", Close: "), true, false)", Atom: "true"},
+	// total functions with defaults
+	{Open: "get([1], 0, ", Close: ")", Atom: "1"}, {Open: "get([1], 5, ", Close: ")", Atom: "1"}, {Open: "get([1: 1], 2, ", Close: ")", Atom: "1"}, {Open: "get([", Close: "], 0, 2)", Atom: "1"},
+	// strict calls, host calls, arithmetic
+	{Open: "-", Atom: "1"}, {Open: "- -", Atom: "1"}, {Open: "abs(", Close: ")", Atom: "1"}, {Open: "string(", Close: ")", Atom: "1"}, {Open: "len([", Close: "])", Atom: "1"},
+	{Open: "tr(1, ", Close: ")", Atom: "1"}, {Open: "hsub(1, ", Close: ")", Atom: "1"}, {Open: "hsub(", Close: ", 1)", Atom: "1"}, {Open: "hpair(", Close: ", 1)[0]", Atom: "1"},
+	{Open: "1 + (", Close: ")", Atom: "1"}, {Close: " + 1", Atom: "1"}, {Close: " ^ 1", Atom: "2"}, {Open: "\"a\" + ", Atom: "\"b\""}, {Open: "max(1, ", Close: ")", Atom: "1"}, {Open: "max(", Close: ", min(1, 2))", Atom: "1"},
+	{Open: "(1 == 1) == (", Close: ")", Atom: "true"}, {Open: "((", Close: " < 2) ? 1 : 0)", Atom: "1"},
+	// literals
+	{Open: "[", Close: "]", Atom: "1"}, {Open: "[[", Close: "]]", Atom: "1"}, {Open: "[1: ", Close: "]", Atom: "1"}, {Open: "{a: ", Close: "}", Atom: "1"}, {Open: "{a: 1, b: ", Close: "}", Atom: "1"}, {Open: "(", Close: ")", Atom: "1"},
+	{Open: "len(union([", Close: "], []))", Atom: "1"}, {Open: "len(intersect([1], [", Close: "]))", Atom: "1"}, {Open: "string({a: ", Close: "})", Atom: "1"},
+	// selectors over nested literals
+	{Close: "[0]", Atom: "1", AtomOpen: "[", AtomClose: "]"}, {Close: ".a", Atom: "1", AtomOpen: "{a: ", AtomClose: "}"}, {Close: "[1]", Atom: "1", AtomOpen: "[1: ", AtomClose: "]"},
+	{Close: ".a[0]", Atom: "1", AtomOpen: "{a: [", AtomClose: "]}"},
+	// method-call notation and dynamic calls
+	{Close: ".abs()", Atom: "(1)"}, {Close: ".hsub(1)", Atom: "(1)"}, {Close: ".tr(1)", Atom: "(1)"}, {Open: "(1).hsub(", Close: ")", Atom: "1"}, {Close: ".string()", Atom: "(1)"},
+}
+
 func TestC12(t *testing.T) {
-	R.Rule = "source strings up to 256 bytes (quick) / 4 KiB (thorough): random bytes, random runes, token soup from the lexicon, grammar-aware edits (insert / delete / duplicate / swap) of valid programs taken from a seed list and from the program generator, bracket nests to depth 12, valid programs; environments: none, Go host values built by reflection (structs, maps, slices, pointers, interface parts, nil parts, unsupported kinds), or one of the fixed hostile host values (cyclic maps / slices / struct rings, self-referential pointers, recursive Go types with nil links, nesting beyond conv's limit, typed nils, unsupported kinds), also as run-time environment of a Callable compiled against something else; every call of Eval, Compile (two back ends), the Callable (same environment, a mismatching map, nil, a number, an unsupported struct) and Debug must return without panicking, with a value or an error, within 5 s (a slower call is repeated three times and reported only if slow every time; a call that does not return within 180 s aborts the run as a violation); scaling class: compile time against repetition count 2..60 for 45 nest, chain and prefix shapes must not grow by more than 2.5x per two levels over four consecutive steps from depth 12 on; non-trivial = input accepted, or rejected with more than one token"
+	R.Rule = "source strings up to 256 bytes (quick) / 4 KiB (thorough): random bytes, random runes, token soup from the lexicon, grammar-aware edits (insert / delete / duplicate / swap) of valid programs taken from a seed list and from the program generator, bracket nests to depth 12, valid programs; environments: none, Go host values built by reflection (structs, maps, slices, pointers, interface parts, nil parts, unsupported kinds), or one of the fixed hostile host values (cyclic maps / slices / struct rings, self-referential pointers, recursive Go types with nil links, nesting beyond conv's limit, typed nils, unsupported kinds), also as run-time environment of a Callable compiled against something else; every call of Eval, Compile (two back ends), the Callable (same environment, a mismatching map, nil, a number, an unsupported struct) and Debug must return without panicking, with a value or an error, within 5 s (a slower call is repeated three times and reported only if slow every time; a call that does not return within 180 s aborts the run as a violation); scaling class: compile time against repetition count 2..60 for 45 nest, chain and prefix shapes must not grow by more than 2.5x per two levels over four consecutive steps from depth 12 on (or 1.7x over five steps from depth 30 on); eval-scaling class: 60 closed accepted shapes (nested / chained conditionals, short-circuit operators, user lazy functions, defaults, strict and host calls, literals, selectors, method notation) compiled and evaluated on each of the four back ends at repetition counts 2..60, compile time (whole pipeline) and evaluation time under the same growth rule; non-trivial = input accepted, or rejected with more than one token"
 	R.Assume = []string{"termination is only observed under the stated budgets; Go stack exhaustion by inputs beyond 4 KiB is not probed"}
 	reportKnown(t, "C12")
 	runRegress(t, "C12")
 	c12scale.Each(t, "nest-shapes", func(yield func(*ScaleCase) bool) {
 		for _, c := range scaleCases {
+			if !yield(c) {
+				return
+			}
+		}
+	})
+	c12evalscale.Each(t, "eval-scaling-shapes", func(yield func(*EvalScaleCase) bool) {
+		for _, c := range evalScaleCases {
 			if !yield(c) {
 				return
 			}
